@@ -17,6 +17,10 @@
                                               named by token); rw / rt = fresh-protocol result for the whole datagram / for its
                                               first max_datagram_bufsize bytes: the model picks rw iff n <= the recv size
                  | L [A 9; B pkt]            send_packet(pkt) where serializing pkt raises: RuntimeError, no datagram
+                 | L [A 11]                  next() on the client's ONE iter_received_packets(timeout=0) iterator: like
+                                             recv_packet, except that an OSError (nothing queued, socket error) ends that
+                                             call with StopIteration -- printed L [A 3]; a parse error propagates and the
+                                             iterator goes on with the next datagram afterwards
      kind 1  one-shot interface derived from read_until:  cfg = L [B sep; A limit; A keep_end; A decmode; A conv]
      kind 2  one-shot interface derived from read_exactly: cfg = L [A size; A decmode; A conv]
      kind 3  StringLineSerializer one-shot codec (Frame/LineOneShot.v): cfg = L [B sep; A keep_end; A ascii]
@@ -88,8 +92,17 @@ Fixpoint enc_lookup (t : list (bytes * bytes)) (p : bytes) : bytes :=
   | (k, v) :: t' => if bytes_eqb k p then v else enc_lookup t' p
   end.
 
+Definition is_iter_op (x : sx) : bool := match x with L [A 11%Z] => true | _ => false end.
+
+Definition iter_sx (r : rres bytes) : sx :=
+  match r with
+  | RSockError | RNoData => L [A 3%Z]
+  | _ => rres_sx r
+  end.
+
 Definition dec_op (x : sx) : option (op (Q := bytes)) :=
   match x with
+  | L [A 11%Z] => Some OpRecv
   | L (A 0%Z :: B d :: _) => Some (OpArrive d)
   | L (A 1%Z :: B p :: _) => Some (OpSend p)
   | L (A 5%Z :: B p :: _) => Some (OpSend p)
@@ -120,15 +133,15 @@ Section Go.
   Variable bufsize : N.
   Variable drop_empty : bool.
 
-  Fixpoint go (t : transport) (ops : list (op (Q := bytes))) : list sx :=
+  Fixpoint go (t : transport) (ops : list (op (Q := bytes) * bool)) : list sx :=
     match ops with
     | [] => []
-    | o :: r =>
+    | (o, it) :: r =>
         let '(t', rs) := do_op serialize deserialize (fun q => q) from_dto bufsize drop_empty t o in
         let out :=
           match o with
           | OpSend _ => map (fun d => L [A 4; B d]) (skipn (length (outq t)) (outq t'))
-          | _ => map rres_sx rs
+          | _ => map (if it then iter_sx else rres_sx) rs
           end in
         L out :: go t' r
     end.
@@ -139,7 +152,8 @@ Definition t0 : transport := {| inq := []; outq := [] |}.
 Definition run (i : sx) : sx :=
   match i with
   | L (A kind :: cfg :: L rawops :: _ :: A ep :: bo :: _) =>
-      do ops <- map_opt dec_op rawops;
+      do ops0 <- map_opt dec_op rawops;
+      let ops := combine ops0 (map is_iter_op rawops) in
       do bopt <- as_opt as_Z bo;
       let de := Z.eqb ep 3 && async_transport_drops_empty in
       let bs := match bopt with
